@@ -4,3 +4,6 @@ INVARIANT SuffixInv
 INVARIANT ReencodeInv
 INVARIANT ClassInv
 CHECK_DEADLOCK FALSE
+INVARIANT EnumInv
+INVARIANT UpDownInv
+INVARIANT SpecializeInv
